@@ -1,7 +1,8 @@
 """C17 Upwinding picks the upstream cell and transports conservatively.
 
 Spec: {"src": "grid"|"mdg", "grid": grid spec | "mdg": mdg spec,
-       "flux": {"mode": "normal"|"signs"|"divfree-proj"|"divfree-cycle", "seed": int, "pzero": float, "exp": int},
+       "flux": {"mode": "normal"|"signs"|"wide"|"divfree-proj"|"divfree-cycle"|"divfree-two", "seed": int,
+                "pzero": float, "exp": int, "decades": int},
        "bc":   {"pattern": [0/1,...], "default": bool, "frac_dir": bool},
        "nc":   1..3,
        "tr":   {"theta": float in (0,1], "steps": 1..3, "cseed": int},
@@ -33,9 +34,12 @@ RULE = (
     "polygons / polyhedra, perturbed / affine / embedded; gmsh simplices in the thorough tier) or the highest-dimensional "
     "subdomain of a fractured 2-d / 3-d md-grid (split fracture faces = additional boundary faces inside the domain); a "
     "face flux field: normal deviates with a fraction {0,.1,.5,.9} of exact (signed) zeros, pure signs scaled by "
-    "1e-300..1e300, or a divergence-free field with zero flux on every boundary face, constructed either by removing the "
+    "1e-300..1e300, per-face magnitudes log-uniform over 4 / 11 / 13 / 16 decades with random signs (so genuinely "
+    "non-zero fluxes down to 1e-16 of the largest one, of both signs, on interior and boundary faces), all with a global "
+    "unit factor 2^-40..2^40 (1e-12..1e12), or a divergence-free field with zero flux on every boundary face, constructed either by removing the "
     "gradient part of a random interior field (least squares on the cell graph, optionally with a random set of closed "
-    "faces) or as an integer combination of fundamental cycles of the cell graph (exactly divergence-free); a "
+    "faces) or as an integer combination of fundamental cycles of the cell graph (exactly divergence-free; also as a "
+    "two-speed field whose cycles in one half of the grid carry 2^-40 times the circulation of the others); a "
     "Dirichlet/Neumann pattern over the boundary faces (fracture faces Neumann as in porepy's models, or included in the "
     "pattern), or no 'bc' parameter at all; num_components 1..3. In 40 % of the cases the data dictionary is reused: an "
     "earlier configuration (other boundary pattern, other component count, flux identical / rescaled with the signs "
@@ -60,11 +64,13 @@ LEVEL_TEXT = ("Exploration: thousands of generated (grid, flux field, boundary a
               "incidence, and on constructed divergence-free no-flow fields an explicit step at or below the CFL limit is "
               "checked for conservation and the discrete maximum principle.")
 LEVEL_NOTE = ("Rows of the upwind matrix on zero-flux interior / Dirichlet faces are not constrained (the property speaks of "
-              "faces with non-zero flux; they are multiplied by the zero flux). Grids up to a few hundred cells. "
+              "faces with non-zero flux; they are multiplied by the zero flux). 'Non-zero' is exact: a flux of 1e-16 of the "
+              "largest one still selects its upstream cell (the selection oracle uses the sign of the given number). Grids up to a few hundred cells. "
               "Finds violations, does not prove absence.")
 DESIGN_REF = "DESIGN.md section 4, C17"
 ASSUMPTIONS = [
-    "flux values are finite floats (no nan / inf)",
+    "flux values are finite floats (no nan / inf); a flux is 'nonzero' unless it is exactly +-0.0, whatever its size "
+    "relative to the other faces (the discretisation documents no threshold)",
     "'the cell the flux leaves' = the cell c of the face with cell_faces[f,c]*flux_f > 0 (face normal points out of c for +1)",
     "on a zero-flux Dirichlet boundary face the rhs_dir entry may be 0 or 1 (it is multiplied by the flux); Neumann faces "
     "carry sign(div) in rhs_neu and an empty upwind row regardless of the flux, as the discretize docstring describes",
@@ -74,8 +80,10 @@ ASSUMPTIONS = [
     "a data dictionary may be re-discretised after its parameters changed (pp.initialize_data documents incremental "
     "updates); the stored matrices then belong to the parameters present at the latest discretize call",
 ]
-REQUIRED = {"dim1": 0.02, "dim2": 0.2, "dim3": 0.2, "fracture-faces": 0.1, "flux-normal": 0.15, "flux-signs": 0.07,
-            "flux-divfree-proj": 0.07, "flux-divfree-cycle": 0.07, "zeros-present": 0.2, "bc-both": 0.2,
+REQUIRED = {"dim1": 0.02, "dim2": 0.2, "dim3": 0.2, "fracture-faces": 0.1, "flux-normal": 0.1, "flux-signs": 0.05,
+            "flux-divfree-proj": 0.05, "flux-divfree-cycle": 0.05, "flux-divfree-two": 0.05, "flux-wide": 0.1,
+            "flux-wide-range": 0.1, "flux-tiny-negative": 0.08, "flux-tiny-negative-interior": 0.05,
+            "flux-tiny-negative-dirichlet": 0.02, "flux-unit-factor": 0.1, "zeros-present": 0.2, "bc-both": 0.2,
             "dir-inflow": 0.15, "dir-outflow": 0.15, "neu-inflow": 0.15, "neu-outflow": 0.15, "nc1": 0.1, "nc2": 0.1,
             "nc3": 0.1, "transport": 0.15, "transport-circulation": 0.07, "default-bc": 0.01, "frac-dir": 0.01,
             "boundary-zero-flux-dir": 0.05, "reuse": 0.2, "reuse-same-signs": 0.05, "reuse-signs-changed": 0.05,
@@ -103,10 +111,12 @@ def _spec(draw, tier):
             s["grid"]["phys"] = [min(p, 2.0 * m) for p in s["grid"]["phys"]]
     else:
         s["mdg"] = draw(mdg_spec(min_fracs=1, max_n=5 if thorough else 4, max_n3=3))
-    mode = draw(st.sampled_from(["normal", "normal", "signs", "divfree-proj", "divfree-cycle"]))
+    mode = draw(st.sampled_from(["normal", "normal", "signs", "wide", "wide", "divfree-proj", "divfree-cycle",
+                                 "divfree-two"]))
     s["flux"] = {"mode": mode, "seed": draw(st.integers(0, 2**31 - 1)),
                  "pzero": draw(st.sampled_from([0.0, 0.1, 0.5, 0.9])),
-                 "exp": draw(st.sampled_from([-300, -30, -3, 0, 0, 3, 30, 300]))}
+                 "exp": draw(st.sampled_from([-300, -40, -30, -3, 0, 0, 3, 30, 40, 300])),
+                 "decades": draw(st.sampled_from([4, 11, 13, 16]))}
     default = src == "grid" and draw(st.integers(0, 11)) == 0
     s["bc"] = {"pattern": draw(st.one_of(st.sampled_from([[0], [1]]), st.lists(st.integers(0, 1), min_size=2, max_size=24),
                                      st.lists(st.integers(0, 1), min_size=2, max_size=7))),
@@ -175,9 +185,12 @@ def _divfree_proj(g, inc, fs):
     return q
 
 
-def _divfree_cycle(g, inc, fs):
+def _divfree_cycle(g, inc, fs, two_speed=False):
     """Integer combination of fundamental cycles of the cell graph (spanning forest by BFS):
-    exactly divergence-free, zero on boundary faces and on faces off the chosen cycles."""
+    exactly divergence-free, zero on boundary faces and on faces off the chosen cycles.
+    two_speed: cycles closed by a chord in the second half of the cells (by index) carry 2^-40 (9e-13) times
+    the circulation of the others - a fast and a nearly stagnant region on one grid; all values are integer
+    multiples of 2^-40 below 2^12, so sums stay exact and the field exactly divergence-free."""
     fi, ci, sg, count = inc
     rng = np.random.default_rng(fs["seed"])
     nf, nc = g.num_faces, g.num_cells
@@ -220,6 +233,8 @@ def _divfree_cycle(g, inc, fs):
             continue
         w = float(rng.integers(1, 6)) * (1 if rng.random() < 0.5 else -1)
         a, b = int(plus[f]), int(minus[f])
+        if two_speed and 2 * min(a, b) >= nc:
+            w *= 2.0 ** -40
         push(a, b, f, w)  # a -> b through the chord, then back b -> ... -> a through the tree
         x, y = b, a
         # walk x up and y up to the common ancestor: flux runs from x upwards, and downwards to y
@@ -236,13 +251,22 @@ def _divfree_cycle(g, inc, fs):
 def _flux(g, inc, fs):
     mode = fs["mode"]
     nf = g.num_faces
+    unit = 2.0 ** min(max(fs["exp"], -40), 40)  # global unit factor 1e-12 .. 1e12 (power of two: exact)
     if mode == "divfree-proj":
-        return _divfree_proj(g, inc, fs) * 2.0 ** min(max(fs["exp"], -30), 30)
+        return _divfree_proj(g, inc, fs) * unit
     if mode == "divfree-cycle":
-        return _divfree_cycle(g, inc, fs) * 2.0 ** min(max(fs["exp"], -30), 30)
+        return _divfree_cycle(g, inc, fs) * unit
+    if mode == "divfree-two":
+        return _divfree_cycle(g, inc, fs, two_speed=True) * unit
     rng = np.random.default_rng(fs["seed"])
     if mode == "normal":
         q = rng.normal(size=nf)
+    elif mode == "wide":
+        # magnitudes log-uniform over `decades` decades, random signs, one face at the top of the range
+        mag = 10.0 ** (-fs.get("decades", 16) * rng.random(nf))
+        if nf:
+            mag[int(rng.integers(0, nf))] = 1.0
+        q = np.where(rng.random(nf) < 0.5, -1.0, 1.0) * mag * unit
     else:  # signs
         q = np.where(rng.random(nf) < 0.5, -1.0, 1.0) * 10.0 ** fs["exp"]
     zero = rng.random(nf) < fs["pzero"]
@@ -455,8 +479,20 @@ def check(spec):
     nzb = (q != 0) & (inc[3] == 1)
     if np.any(q == 0):
         labels.append("zeros-present")
-    if fs["pzero"] >= 0.5 and fs["mode"] in ("normal", "signs"):
+    if fs["pzero"] >= 0.5 and fs["mode"] in ("normal", "signs", "wide"):
         labels.append("many-zeros")
+    qa = np.abs(q[q != 0])
+    if qa.size and float(qa.max()) > 1e10 * float(qa.min()):
+        labels.append("flux-wide-range")
+        if np.any((q < 0) & (np.abs(q) <= 1e-10 * float(qa.max()))):
+            labels.append("flux-tiny-negative")
+            tiny = (q < 0) & (np.abs(q) <= 1e-10 * float(qa.max()))
+            if np.any(tiny & (inc[3] == 2)):
+                labels.append("flux-tiny-negative-interior")
+            if np.any(tiny & is_dir):
+                labels.append("flux-tiny-negative-dirichlet")
+    if qa.size and not (1e-9 < float(qa.max()) < 1e9):
+        labels.append("flux-unit-factor")
     if is_dir.any() and is_neu.any():
         labels.append("bc-both")
     for nm, m in (("dir-inflow", is_dir & inflow), ("dir-outflow", is_dir & outflow), ("neu-inflow", is_neu & inflow),
